@@ -395,11 +395,14 @@ def r4_export_load(ctx):
             sv = [c for st in lp.body for c in ast.walk(st)
                   if isinstance(c, ast.Call) and call_name(c) == "np.savetxt"]
             ok = any(a == [name_expr] for _, a in tm) and bool(sv) and \
-                f"[:, {ii}]" in norm(sv[0].args[1])
+                (f"[:, {ii}]" in norm(sv[0].args[1])
+                 or f"[:, {ii}]" in Resolver(ex, keep={ii}).text(
+                     sv[0].args[1]))
     ctx.check(ok, ex, "column i is written to train_<name of feature i>.txt",
               "exported column index and feature name do not correspond")
     ok = any("train_response.txt" in norm(st) for st in walk_no_nested(
-        ex, False) if isinstance(st, ast.Assign))
+        ex, False) if isinstance(st, ast.Assign)) or any(
+        c.args and "train_response.txt" in norm(c.args[0]) for c in saves)
     ctx.check(ok, ex, "response written to train_response.txt",
               "response file name differs from the loader's")
     usr = [st for st in walk_no_nested(ex, False) if isinstance(st, ast.Assign)
